@@ -8,6 +8,32 @@
 #include "common.hpp"
 #include <tao/pegtl/contrib/parse_tree.hpp>
 
+#ifndef C12_MAXNODES
+#define C12_MAXNODES 8
+#endif
+#ifndef C12_MAXDEPTH
+#define C12_MAXDEPTH 6
+#endif
+
+namespace c12
+{
+   struct tnode;
+}
+
+// The node class brings its own deleter (a program-defined specialisation of std::default_delete for a program-defined type):
+// it frees exactly the nodes the primary template would free (the node and everything below it, each once), but walks the
+// subtree with an explicit work list instead of recursing through ~vector -> ~unique_ptr -> ~tnode.  A bounded model checker
+// unfolds that recursion once per child slot and level (capacity^depth copies at every pop_back); the loop below is linear.
+namespace std
+{
+   template<>
+   struct default_delete< c12::tnode >
+   {
+      constexpr default_delete() noexcept = default;
+      inline void operator()( c12::tnode* p ) const;
+   };
+}  // namespace std
+
 namespace c12
 {
    using namespace tao::pegtl;
@@ -27,6 +53,35 @@ namespace c12
       }
    };
 
+}  // namespace c12
+
+inline void std::default_delete< c12::tnode >::operator()( c12::tnode* p ) const
+{
+   c12::tnode* work[ C12_MAXNODES + 2 ];
+   unsigned n = 0;
+   work[ n++ ] = p;
+   // one node per iteration
+   for( unsigned it = 0; ( it < C12_MAXNODES + 2 ) && ( n != 0 ); ++it ) {
+      c12::tnode* q = work[ --n ];
+      for( auto& c : q->children ) {
+         if( c ) {
+            if( n == C12_MAXNODES + 2 ) {
+               verif_capacity_exceeded();
+            }
+            work[ n++ ] = c.release();
+         }
+      }
+      // every child pointer is null now: the nested ~unique_ptr calls of ~tnode find nothing to delete
+      q->~tnode();
+      ::operator delete( q );
+   }
+   if( n != 0 ) {
+      verif_capacity_exceeded();
+   }
+}
+
+namespace c12
+{
    // is_type<>() against the list of selected rules: index of the first rule type the node claims to be (or -1)
    template< typename... Rules >
    struct typelist
@@ -39,13 +94,6 @@ namespace c12
          return r;
       }
    };
-
-#ifndef C12_MAXNODES
-#define C12_MAXNODES 8
-#endif
-#ifndef C12_MAXDEPTH
-#define C12_MAXDEPTH 6
-#endif
 
    // out[0] result (0 no tree / 1 tree / 2 verif_exc / 3 foreign_exc), out[1] cursor, out[2] exception id,
    // out[3] number of nodes below the root, out[4] flags of the root (bit0: is_root(), bit1: has_content()),
